@@ -76,6 +76,8 @@ def observe(res, model_sched=None):
     steals_obs = []      # (k, thief, what, owner, root action of a recorded finding or None, point)
     checked = {}         # contender -> what it saw at its last check point
     entered = {}         # contender -> what it saw when it entered a cleanup function
+    saw_dead_partial = set()   # contenders whose grace period may have been started on the dead half-written lock
+    created_at = {}      # contender -> time its own lock file was created
     mismatch = None
     init_lock = {"none": ["absent", "noone"], "dead_lock": ["full", "dead"], "dead_lock_meta": ["full", "dead"],
                  "dead_partial": ["partial", "dead"], "dead_meta": ["absent", "noone"], "dead_partial_meta": ["partial", "dead"], "live_serving": ["full", "res"], "live_starting": ["full", "res"]}[res["start"]]
@@ -104,11 +106,17 @@ def observe(res, model_sched=None):
                 root = None
                 if what == "lock" and seen.get("point") == "auth.stale.checked" and seen.get("lock", ["", ""])[1] == "dead":
                     root = "StaleRename"          # passed the pid re-check on the dead lock, renamed another one
-                elif what == "lock" and ent.get("point") == "auth.corrupt.enter" and ent.get("lock", ["", ""]) == ["partial", "dead"]:
-                    root = "CorruptRename"        # decided on the dead half-written lock (the function re-checks existence only)
+                elif what == "lock" and ent.get("point") == "auth.corrupt.enter" and (ent.get("lock", ["", ""]) == ["partial", "dead"] or a in saw_dead_partial):
+                    root = "CorruptRename"        # its grace period was started on the dead half-written lock (the function re-checks existence only)
+                elif what == "lock" and before[0] == "partial" and ent.get("point") == "auth.corrupt.enter" and st.get("t_ms", 0) - created_at.get(before[1], 0) >= 1000:
+                    root = "timing"               # the harness kept a live writer parked for longer than the code's 1 s grace period
                 elif what == "meta" and seen.get("point") in ("auth.stale.metaread", "auth.stale.renamed", "auth.stale.checked") and seen.get("meta", ["", ""])[1] == "dead":
                     root = "StaleMetaRename"
                 steals_obs.append((k, a, what, before[1], root, st["arrived"]))
+        if lock == ["partial", "dead"]:
+            saw_dead_partial.add(a)
+        if st["arrived"] == "auth.acquire.created":
+            created_at[a] = st.get("t_ms", 0)
         if st["arrived"] in ("auth.stale.enter", "auth.corrupt.enter"):
             entered[a] = {"point": st["arrived"], "lock": lock, "meta": meta}
             checked.pop(a, None)
@@ -144,6 +152,10 @@ def judge(v, c, res):
     steals_obs, mismatch = observe(res, m["sched"])
     # ---- verdicts
     root_keys = []
+    timing = any(root == "timing" for (_, _, _, _, root, _) in steals_obs)
+    if timing:
+        v.cov["unrealised_schedules"] += 1
+        return mismatch is None
     for (k, a, what, owner, root, point) in steals_obs:
         if root in KEY:
             root_keys.append(KEY[root])
